@@ -43,7 +43,8 @@ ASSUMPTIONS = [
 def _spec(ops, rev_bc, rev_arg, has_suffix):
     pre = [('code', o.index) for o in ops if o.has_code and o.position == 'PREFIX']
     pre.reverse()
-    suf = [('code', o.index) for o in ops if o.has_code and o.position == 'SUFFIX']
+    # (a code part without a configured position - built by the operand from its parts - takes the default position, the suffix)
+    suf = [('code', o.index) for o in ops if o.has_code and o.position != 'PREFIX']
     if rev_bc:
         pre.reverse()
         suf.reverse()
@@ -65,6 +66,7 @@ def c01_1(ctx):
     for pos in itertools.product(['PREFIX', 'SUFFIX'], repeat=3):
         configs.append([AbsOperand(i, pos[i], True, True) for i in range(3)])
     configs.append([AbsOperand(0, 'SUFFIX', True, False), AbsOperand(1, None, False, True), AbsOperand(2, 'PREFIX', True, True), AbsOperand(3, 'SUFFIX', True, True)])
+    configs.append([AbsOperand(0, 'PREFIX', True, True), AbsOperand(1, None, True, True), AbsOperand(2, 'SUFFIX', True, False)])
     configs.append([])
     n = 0
     failures = {}
@@ -631,22 +633,21 @@ MUTANTS = [
 ''', 'C01.1'),
     V('c01-arg-flag-reverses-codes', _OP, '        if self._reverse_op_bytecode_order:\n            suffix_op_bytecode.reverse()', '        if self._reverse_arg_order:\n            suffix_op_bytecode.reverse()', 'C01.1'),
     V('c01-flags-swapped-at-site', _OP, 'return MatchedOperandSet(matched_operands, self.reverse_argument_order, self.reverse_bytecode_order)', 'return MatchedOperandSet(matched_operands, self.reverse_bytecode_order, self.reverse_argument_order)', 'C01.1'),
-    V('c01-insert-suffix-directly', _OP, '''                if op.operand.bytecode_position == OperandBytecodePositionType.SUFFIX:
-                    suffix_op_bytecode.append(op.bytecode)
-                elif op.operand.bytecode_position == OperandBytecodePositionType.PREFIX:
-                    prefix_op_bytecode.insert(0, op.bytecode)
+    V('c01-insert-suffix-directly', _OP, '''                    suffix_op_bytecode.append(op.bytecode)
 
         if self._reverse_op_bytecode_order:
             suffix_op_bytecode.reverse()
             prefix_op_bytecode.reverse()
-''', '''                if op.operand.bytecode_position == OperandBytecodePositionType.SUFFIX:
-                    if self._reverse_op_bytecode_order:
+''', '''                    if self._reverse_op_bytecode_order:
                         suffix_op_bytecode.insert(0, op.bytecode)
                     else:
                         suffix_op_bytecode.append(op.bytecode)
-                elif op.operand.bytecode_position == OperandBytecodePositionType.PREFIX:
-                    prefix_op_bytecode.insert(0, op.bytecode)
 ''', 'C01.1'),
+    V('c01-unpositioned-code-dropped', _OP, '''                else:
+                    # the suffix is the default position, also for the byte code an operand builds from its parts
+                    # (an indexed register's index code) without a byte code section of its own
+                    suffix_op_bytecode.append(op.bytecode)''', '''                elif op.operand.bytecode_position == OperandBytecodePositionType.SUFFIX:
+                    suffix_op_bytecode.append(op.bytecode)''', 'C01.1'),
     V('c01-suffix-dropped-operandless', _GI, '''            machine_code = [base_bytecode]
             if base_bytecode_suffix is not None:
                 machine_code.append(base_bytecode_suffix)
